@@ -279,6 +279,9 @@ func runCacheSession(s CacheSession) CacheSessionResult {
 	}
 	var bugs []entity.Id
 	var markers []string
+	// queries by the users' names, asked from the start (so that whatever the cache remembers about an identity is in use
+	// before the identity changes)
+	markers = append(markers, `author:"Alice Liddell"`, `author:"Bob Müller"`, `participant:alice`, `actor:bob sort:edit`)
 	staged := map[int]map[entity.Id]bool{0: {}, 1: {}}
 	pulledStaged := map[int]bool{} // a pull ran while operations were staged: the cache may have replaced those instances
 	unix := int64(1_700_100_000)
@@ -361,6 +364,18 @@ func runCacheSession(s CacheSession) CacheSessionResult {
 			if err == nil {
 				bugs = append(bugs, b.Id())
 				markers = append(markers, m)
+			}
+		case "newmany": // a burst of new bugs (a long absence on the other side: one pull then merges many entities)
+			for k := 0; k < a.N && err == nil; k++ {
+				m := marker(rng)
+				var b *cache.BugCache
+				b, _, err = sd.c.Bugs().NewRaw(sd.user, unix+int64(k), "bulk "+m, "body", nil, map[string]string{"verif-key": fmt.Sprintf("k%d", len(bugs))})
+				if err == nil {
+					bugs = append(bugs, b.Id())
+					if k%9 == 0 || k == a.N-1 {
+						markers = append(markers, m)
+					}
+				}
 			}
 		case "comment":
 			if b, id, ok := resolveBug(); ok {
@@ -548,6 +563,10 @@ func runCacheSession(s CacheSession) CacheSessionResult {
 			if err == nil {
 				err = sd.user.CommitAsNeeded()
 			}
+			if err == nil {
+				// from now on the bugs of this user are found under the new name (queries are compared like markers)
+				markers = append(markers, fmt.Sprintf("author:%q", sd.user.Name()), fmt.Sprintf("actor:%q sort:id", sd.user.Name()))
+			}
 		case "reopen":
 			if len(staged[a.R]) > 0 {
 				break
@@ -657,6 +676,8 @@ func c11Targeted() []CacheSession {
 		{Name: "fetch-then-pull", Actions: []CacheAction{{Op: "new", R: 0}, {Op: "push", R: 0}, {Op: "pull", R: 1, N: 1}, {Op: "comment", R: 0, Bug: 0}, {Op: "new", R: 0}, {Op: "push", R: 0}, {Op: "fetch", R: 1}, {Op: "pull", R: 1, N: 1}, {Op: "comment", R: 1, Bug: 0}, {Op: "sync", R: 0}}},
 		{Name: "pull-with-staged-operations", Actions: []CacheAction{{Op: "new", R: 0}, {Op: "push", R: 0}, {Op: "pull", R: 1}, {Op: "comment", R: 0, Bug: 0}, {Op: "push", R: 0}, {Op: "stage", R: 1, Bug: 0}, {Op: "pull", R: 1, N: 2}, {Op: "commitstaged", R: 1}, {Op: "push", R: 1}, {Op: "sync", R: 0}}},
 		{Name: "pull-into-loaded-bug-then-edit", Actions: []CacheAction{{Op: "new", R: 0}, {Op: "push", R: 0}, {Op: "pull", R: 1, N: 1}, {Op: "comment", R: 1, Bug: 0}, {Op: "push", R: 1}, {Op: "comment", R: 0, Bug: 0}, {Op: "pull", R: 0, N: 1}, {Op: "title", R: 0, Bug: 0}, {Op: "push", R: 0}, {Op: "sync", R: 0}}},
+		{Name: "pull-many-then-search", Actions: []CacheAction{{Op: "new", R: 0}, {Op: "push", R: 0}, {Op: "pull", R: 1}, {Op: "newmany", R: 0, N: 110}, {Op: "push", R: 0}, {Op: "pull", R: 1, N: 1}, {Op: "comment", R: 1, Bug: 5}, {Op: "reopen", R: 1}}},
+		{Name: "rename-between-author-queries", Actions: []CacheAction{{Op: "new", R: 0}, {Op: "comment", R: 0, Bug: 0}, {Op: "push", R: 0}, {Op: "pull", R: 1}, {Op: "comment", R: 1, Bug: 0}, {Op: "idrename", R: 0, Text: "Renamed"}, {Op: "comment", R: 0, Bug: 0}, {Op: "push", R: 0}, {Op: "pull", R: 1}, {Op: "comment", R: 1, Bug: 0}, {Op: "idrename", R: 1, Text: "Also"}, {Op: "reopen", R: 1}}},
 		{Name: "remove-then-pull", Actions: []CacheAction{{Op: "new", R: 0}, {Op: "new", R: 0}, {Op: "push", R: 0}, {Op: "pull", R: 1}, {Op: "remove", R: 1, Bug: 0}, {Op: "reopen", R: 1}, {Op: "comment", R: 1, Bug: 1}}},
 	}
 }
